@@ -311,7 +311,7 @@ type unrankCase struct {
 }
 
 func genUnrankCase(t *rapid.T) unrankCase {
-	if rare(t, "k2boundary", uint64(sz(400, 40))) {
+	if rare(t, "k2boundary", uint64(sz(400, 600))) {
 		// k = 2 next to a triangular number C(l,2) with l of 27..28 bits: ranks above 2^53 (the walk takes l steps, ~0.2 s)
 		l := rapid.IntRange(1<<27, 1<<28).Draw(t, "l")
 		return unrankCase{l*(l-1)/2 + rapid.IntRange(-2, 2).Draw(t, "delta"), 2}
